@@ -51,6 +51,23 @@ func init() {
 			}
 			return sb.String()
 		}
+		// white-box poke: cut the buffer back to the pages in use (those beyond nextPage are blank) and make it exactly
+		// full, so that the next page taken by bumping nextPage re-allocates (calloc) or re-maps (mmap) the buffer and
+		// every node slice obtained before that is stale
+		tight := func() {
+			b := t.buffer
+			b.offset = 8 + t.nextPage*uint64(pageSize)
+			if persistent {
+				if err := b.mmapFile.Truncate(int64(b.offset)); err != nil {
+					panic(err)
+				}
+				b.buf = b.mmapFile.Data
+				b.curSz = len(b.buf)
+			} else {
+				b.curSz = int(b.offset)
+			}
+			t.data = b.Bytes()
+		}
 		return func(op []string) string {
 			if closed && op[0] != "__end" {
 				// a reopen failed (panicked): the old mapping is gone, nothing may touch it
@@ -84,11 +101,17 @@ func init() {
 				return fmt.Sprintf("%d %d %d %d %d", s.NumLeafKeys, s.NumPages, s.NumPagesFree, t.nextPage, t.freePage)
 			case "datalen":
 				return fmt.Sprint(len(t.data))
-			case "fill":
+			case "tight":
+				tight()
+				return "ok"
+			case "fill", "tfill":
 				// set k0, k0+step, ... (value v) until the tree has at least P pages; prints how many keys were set
 				k, step, v, p := vu(op[1]), vu(op[2]), vu(op[3]), int(vu(op[4]))
 				n := 0
 				for t.Stats().NumPages < p && n < 400000 {
+					if op[0] == "tfill" {
+						tight()
+					}
 					t.Set(k, v)
 					k += step
 					n++
